@@ -29,13 +29,14 @@ type Fi struct {
 }
 
 type Entry struct {
-	Type  string
-	Src   string // pattern relative to the source root ("" = none); symlink: literal target
-	Dst   string // raw spelling
-	Tag   string
-	Fi    Fi
-	HasFi bool
-	Abs   bool // Src is used as given (symlink target etc.), not joined to the root
+	Type   string
+	Src    string // pattern relative to the source root ("" = none); symlink: literal target
+	Dst    string // raw spelling
+	Tag    string
+	Fi     Fi
+	HasFi  bool
+	Abs    bool // Src is used as given (symlink target etc.), not joined to the root
+	Expand bool // expand: true in the YAML (no reference in the generated values: must change nothing)
 }
 
 func (e Entry) M() M {
@@ -412,6 +413,46 @@ func famPlan(tr *Trace, scratch string, seed int64, tier string, workers int) M 
 		}
 	}
 
+	// (2c) directories owned by the distribution (files/fs.go): trees into /etc, /usr (with a bin/ inside), a symlink or
+	// file sitting where the tree has a directory, declared owner on such a tree, relative spelling of the destination
+	nFs := 0
+	{
+		mkf := func(p string, mode int, body string) Node {
+			b := []byte(body)
+			return Node{P: p, Kind: "file", Mode: mode, Mt: 1500000000, Size: len(b), data: b, Cid: cidOf(b)}
+		}
+		nodes := []Node{{P: "r", Kind: "dir", Mode: 0o755, Mt: 1500000000}, {P: "r/bin", Kind: "dir", Mode: 0o750, Mt: 1500000001}, mkf("r/bin/tool", 0o755, "x"),
+			{P: "r/lib64", Kind: "dir", Mode: 0o755, Mt: 1500000002}, mkf("r/lib64/l.so", 0o644, "so"), {P: "r/share", Kind: "dir", Mode: 0o775, Mt: 1500000003},
+			mkf("r/share/doc.txt", 0o644, "doc"), {P: "e", Kind: "dir", Mode: 0o700, Mt: 1500000004}, mkf("e/app.conf", 0o600, "k=v")}
+		rt := filepath.Join(scratch, "plan-fs")
+		Materialise(rt, nodes)
+		treeM["FS"] = nodesM(nodes)
+		own := Fi{Owner: "app", Group: "grp"}
+		lists := [][]Entry{
+			{{Type: "tree", Src: "r", Dst: "/usr"}},
+			{{Type: "tree", Src: "r", Dst: "/usr", Fi: own, HasFi: true}},
+			{{Type: "tree", Src: "r", Dst: "/opt/x", Fi: own, HasFi: true}},
+			{{Type: "tree", Src: "e", Dst: "/etc"}},
+			{{Type: "tree", Src: "e", Dst: "etc", Fi: own, HasFi: true}},
+			{{Type: "tree", Src: "e", Dst: "/etc/", Fi: own, HasFi: true}},
+			{{Type: "symlink", Src: "lib", Dst: "/usr/lib64"}, {Type: "tree", Src: "r", Dst: "/usr"}},
+			{{Type: "file", Src: "e/app.conf", Dst: "/usr/bin"}, {Type: "tree", Src: "r", Dst: "/usr"}},
+			{{Type: "dir", Dst: "/usr/bin", Fi: own, HasFi: true}, {Type: "tree", Src: "r", Dst: "/usr"}},
+			{{Type: "tree", Src: "r", Dst: "/usr"}, {Type: "dir", Dst: "/usr/bin", Fi: own, HasFi: true}},
+			{{Type: "file", Src: "e/app.conf", Dst: "/usr/bin/x"}, {Type: "tree", Src: "r", Dst: "/usr"}},
+			{{Type: "file", Src: "e/app.conf", Dst: "/opt/x/share/extra"}, {Type: "tree", Src: "r", Dst: "/opt/x"}},
+			{{Type: "tree", Src: "r", Dst: "/opt/x"}, {Type: "file", Src: "e/app.conf", Dst: "/opt/x/share/extra"}},
+			{{Type: "tree", Src: "r", Dst: "/usr"}, {Type: "tree", Src: "r", Dst: "/usr"}},
+			{{Type: "tree", Src: "r", Dst: "/usr"}, {Type: "tree", Src: "e", Dst: "/usr/bin"}},
+		}
+		for _, l := range lists {
+			for _, pk := range []string{"deb", "rpm"} {
+				add("fsowned", pk, false, 0o22, 1600000000, "FS", rt, l)
+				nFs++
+			}
+		}
+	}
+
 	// (3) random lists over random trees
 	nRand := 150
 	if tier == "thorough" {
@@ -439,7 +480,7 @@ func famPlan(tr *Trace, scratch string, seed int64, tier string, workers int) M 
 			tr.Index(pc.ID, M{"pk": pc.Pk, "umask": pc.Umask, "noglob": pc.NoGlob, "pmt": pc.Pmt, "tree": pc.TreeID, "entries": entriesM(pc.Entries), "fam": pc.Family})
 		}
 	}
-	return M{"cases": len(cases), "exhaustive_lists": nExh, "exhaustive_triples": nExh3, "spellings": nSpell, "globshapes": nGlobx, "random": nRand,
+	return M{"cases": len(cases), "exhaustive_lists": nExh, "exhaustive_triples": nExh3, "spellings": nSpell, "globshapes": nGlobx, "fsowned": nFs, "random": nRand,
 		"options": len(opts), "maxlen": maxLen}
 }
 
@@ -478,7 +519,7 @@ func randomTree(rng *rand.Rand, meta bool) []Node {
 			case r == 3:
 				// a link; target kind decided below
 				tk := []string{"file", "none"}[rng.Intn(2)]
-				tgt := "nonexistent-target"
+				tgt := []string{"nonexistent-target", "./rel/../unclean-target", "dir/"}[rng.Intn(3)]
 				if tk == "file" {
 					tgt = "/etc/hostname"
 					if _, err := os.Stat(tgt); err != nil {
